@@ -76,13 +76,12 @@ func newWorldLine(x *World, widx int) map[string]interface{} {
 
 // runSchedule executes a complete schedule and writes its trace.
 func runSchedule(h Header, out *lineWriter) {
-	x := NewWorld(h)
-	out.write(newWorldLine(x, 0))
+	s := newSession(h, out)
 	for i, op := range h.Ops {
 		if h.GCEvery > 0 && i%h.GCEvery == 0 {
 			runtime.GC()
 		}
-		out.write(x.Exec(i+1, op))
+		s.step(op)
 	}
 }
 
@@ -157,8 +156,10 @@ func cmdGen(args []string) {
 		if rng.Intn(3) == 0 {
 			h.RelCapInc = 1 + rng.Intn(3)
 		}
-		x := NewWorld(h)
-		g := &generator{rng: rng, p: &p, x: x}
+		h.Twin = p.Twin
+		ss := newSession(h, out)
+		x := ss.a
+		g := &generator{rng: rng, p: &p, x: x, ss: ss}
 		for _, c := range x.compNums {
 			if x.comps[c].isRel {
 				g.rels = append(g.rels, c)
@@ -166,13 +167,11 @@ func cmdGen(args []string) {
 				g.nons = append(g.nons, c)
 			}
 		}
-		out.write(newWorldLine(x, 0))
 		for i := 0; i < p.Steps; i++ {
 			op := g.next()
-			line := x.Exec(i+1, op)
+			line := ss.step(op)
 			g.markClosed(op, line)
 			h.Ops = append(h.Ops, op)
-			out.write(line)
 		}
 		if sched != nil {
 			sched.write(h)
